@@ -97,11 +97,13 @@ func cmdFunc(args []string) {
 		fmt.Println("UNSUPPORTED:", fr.Unsupported)
 		os.Exit(2)
 	}
-	for _, l := range fr.LoopLines {
-		fmt.Println(l)
-	}
-	for _, w := range fr.Warnings {
-		fmt.Println("warning:", w)
+	if *dump == "" {
+		for _, l := range fr.LoopLines {
+			fmt.Println(l)
+		}
+		for _, w := range fr.Warnings {
+			fmt.Println("warning:", w)
+		}
 	}
 	if *dump != "" {
 		for _, ob := range fr.Obls {
